@@ -777,6 +777,7 @@ func (c *Conn) releaseStream(call *callReq) {
 
 	verifYield("release.beforeClear", c, call.streamID)
 	c.streams.Clear(call.streamID)
+	verifYield("release.afterClear", c, call.streamID)
 
 	if call.streamObserverContext != nil {
 		call.streamObserverEndOnce.Do(func() {
